@@ -39,6 +39,8 @@ type Sock struct {
 	mu       sync.Mutex
 	out      []*OutPkt
 	failNext int
+
+	route func(dst net.Addr, b []byte) // free-running mode: deliver to the addressed SMF actor
 }
 
 func newSock(s *Sim, name string) *Sock {
@@ -80,6 +82,9 @@ func (k *Sock) WriteTo(p []byte, addr net.Addr) (int, error) {
 		return 0, syscall.ENOBUFS
 	}
 	k.sim.logEvent("%s out dst=%s % x", k.name, o.Dst, o.B)
+	if k.route != nil {
+		k.route(addr, p)
+	}
 	return len(p), nil
 }
 
@@ -103,6 +108,17 @@ func (k *Sock) inject(b []byte, from net.Addr) {
 		return
 	}
 	k.in <- inPkt{append([]byte(nil), b...), from}
+}
+
+// injectLossy never blocks: a full receive buffer drops the datagram.
+func (k *Sock) injectLossy(b []byte, from net.Addr) {
+	if k.isClosed() {
+		return
+	}
+	select {
+	case k.in <- inPkt{append([]byte(nil), b...), from}:
+	default:
+	}
 }
 
 // outSince returns the datagrams written at index >= from.
